@@ -210,6 +210,32 @@ func runSrvCase(o *Oracle, c *SrvCase, rep *Report) {
 			rep.Violate(Violation{Kind: "input", Signature: "C13:response-mismatch", What: fmt.Sprintf("batch %d (cache=%v preload=%v)", bi, c.Cache, c.Preload), Expected: trunc(want, 1500), Actual: trunc(got, 1500), Case: c})
 		}
 	}
+	// one large batch: thousands of valid queries in a single request (about 100 KiB on the wire)
+	if len(c.Batches) > 0 {
+		var base *BatchQ
+		for bi := range c.Batches {
+			for i := range c.Batches[bi] {
+				b := &c.Batches[bi][i]
+				if b.W == nil && o.Ask("idx q "+b.Q.Toks()) != "err" {
+					base = b
+				}
+			}
+		}
+		if base != nil {
+			req := &proto.QueryRequest{}
+			one := o.Ask("idx q " + base.Q.Toks())
+			var parts []string
+			for k := 0; k < 6000; k++ {
+				req.Queries = append(req.Queries, qcaseToProto(&base.Q, 0))
+				parts = append(parts, fmt.Sprintf("id=%d %s", k+1, one))
+			}
+			got, _ := s.query(req)
+			rep.Count("large-batches")
+			if want := "ok " + strings.Join(parts, " ; "); got != want {
+				rep.Violate(Violation{Kind: "input", Signature: "C13:response-mismatch", What: "a batch of 6000 valid queries in one request", Expected: trunc(want, 300), Actual: trunc(got, 300), Case: c})
+			}
+		}
+	}
 	// several clients at once: every response still belongs to its own request
 	if len(c.Batches) > 0 {
 		var wg sync.WaitGroup
@@ -569,6 +595,17 @@ func runC14(rep *Report, r *Rng, tier string) {
 			c.NoExp = append(c.NoExp, false)
 		}
 		if i == 0 {
+			leaf := &WT{Op: "E", C: hx("a"), V: hx("1")}
+			for _, w := range []int{129, 300, 3000} {
+				for _, op := range []string{"A", "O"} {
+					wide := &WT{Op: op}
+					for k := 0; k < w; k++ {
+						wide.Kids = append(wide.Kids, leaf)
+					}
+					c.Trees = append(c.Trees, wide)
+					c.NoExp = append(c.NoExp, false)
+				}
+			}
 			c.Deep = 2000
 			c.Trees = append(c.Trees, &WT{Op: "E", C: hx("a"), V: "-", Ph: 3}, &WT{Op: "E", C: hx("a"), V: "-", Ph: -3})
 			c.NoExp = append(c.NoExp, false, false)
@@ -586,6 +623,25 @@ func runC14(rep *Report, r *Rng, tier string) {
 				srv.stop()
 				srv = startServer(path, true, false)
 			}
+			// very long group-by lists (a column named 20, 40, 64 times): the number of candidate groups overflows
+			// any machine integer long before the number of actual groups grows
+			for _, reps := range []int{20, 40, 64} {
+				gq := QCase{E: probe.E}
+				for k := 0; k < reps; k++ {
+					gq.GB = append(gq.GB, hx([]string{"a", "b"}[k%2]))
+				}
+				want := "ok id=1 " + o.Ask("idx q "+gq.Toks())
+				res, alive := srv.query(&proto.QueryRequest{Queries: []*proto.Query{qcaseToProto(&gq, 0)}})
+				rep.Count("long-groupby-requests")
+				if !alive || res != want {
+					rep.Violate(Violation{Kind: "input", Signature: "C14:long-groupby", What: fmt.Sprintf("group_by naming columns %d times: %s", reps, srv.exitS), Expected: trunc(want, 200), Actual: trunc(res, 200), Case: map[string]any{"groupby_repeats": reps}})
+					if !alive {
+						srv.stop()
+						srv = startServer(path, true, false)
+					}
+					break
+				}
+			}
 			// a request without any query is decodable too
 			if res, alive := srv.query(&proto.QueryRequest{}); !alive || res != "ok " {
 				rep.Violate(Violation{Kind: "input", Signature: "C14:empty-request", What: "a QueryRequest without queries: " + srv.exitS, Expected: "empty response", Actual: trunc(res, 200), Case: map[string]any{"request": "empty"}})
@@ -595,8 +651,8 @@ func runC14(rep *Report, r *Rng, tier string) {
 				}
 			}
 		}
-		if len(c.Trees) > 60 {
-			c.Trees, c.NoExp = c.Trees[:60], c.NoExp[:60]
+		if len(c.Trees) > 70 {
+			c.Trees, c.NoExp = c.Trees[:70], c.NoExp[:70]
 		}
 		if !runHostileCase(o, c, rep, srv, idx) {
 			srv.stop()
